@@ -13,7 +13,7 @@ LEAN_TARGETS = ['LLTD.Props.C17']
 VARIANT = 'plain'
 RULE = ('pairs of histories (h1, h2) on two interface contexts with different attributes: a seeded random merge of the two, and each history '
         'alone (the other context created but silent); the per-interface transmit/sleep traces of the merge are compared with the '
-        'solo runs; both orders of the first frames occur; plus (thread clause) the six schedules of two threads at the hook points of '
+        'solo runs; both orders of the first frames occur; pairs where one interface holds ~1000 unreported observations while the other records and reports its own; plus (thread clause, steady state) two threads each serving a full session on its own existing interface under ThreadSanitizer with a port that shares no mutable object; (thread clause, first frame) the six schedules of two threads at the hook points of '
         'lltd_state_for_iface replayed on the real code; non-trivial = both interfaces transmitted; distinct = distinct projected transcript')
 ASSUMPTIONS = ['port contract as for C02', 'no faults; process-wide attributes (host name, icon, ...) constant during the run',
                'thread clause: sequential consistency at the granularity of the two hook points; the C11 data-race verdict itself is only observed by TSan']
@@ -42,6 +42,19 @@ def cases(rng, tier, X):
         out.append(('m%d_merged' % k, head + merged))
         out.append(('m%d_solo0' % k, head + h0))
         out.append(('m%d_solo1' % k, head + h1))
+    # resource cross-talk: interface 0 holds close to the cap of unreported observations while interface 1 records and reports its own
+    for k in range(2 if tier == 'quick' else 40):
+        head = [F.iface_line(0, mac=F.OWN, mtu=1500), F.iface_line(1, mac=F.OWN2, mtu=1500), F.glob_line()]
+        m = F.STATIONS[0]
+        n0 = rng.choice([1000, 1023, 1024, 900])
+        n1 = rng.choice([100, 30, 200])
+        h0 = ['rx 0 %s zero' % F.discover(m, 1, 1)] + ['rx 0 %s zero' % F.probe('02f0%02x%02x%04x' % (k, i >> 8, i & 0xffff), F.OWN, F.rand_mac(rng), F.OWN) for i in range(n0)]
+        h1 = (['rx 1 %s zero' % F.discover(m, 1, 1)] + ['rx 1 %s zero' % F.probe('02f1%02x%02x%04x' % (k, i >> 8, i & 0xffff), F.OWN2, F.rand_mac(rng), F.OWN2) for i in range(n1)]
+              + ['rx 1 %s zero' % F.query(m, F.OWN2, 7 + q) for q in range(4)])
+        tail0 = ['rx 0 %s zero' % F.query(m, F.OWN, 9)]
+        out.append(('x%d_merged' % k, head + h0 + h1 + tail0))
+        out.append(('x%d_solo0' % k, head + h0 + tail0))
+        out.append(('x%d_solo1' % k, head + h1))
     return out
 
 
@@ -134,5 +147,31 @@ def extra_run(tier, seed, tag):
             tsan = '%d data-race reports (threads released together by a barrier, no schedule hook), %d frames in lltdBlock.c' % (n, core_hits)
         except subprocess.TimeoutExpired:
             tsan = 'timeout'
-    out['coverage'] = {'thread_schedules': results, 'tsan_supporting_run': tsan}
+    # steady state: both records exist, each thread serves a full session on its own interface; the port is built with
+    # thread-local state (-DVP_TL=__thread), so any ThreadSanitizer report is a data race inside the core
+    steady = 'not run'
+    r = vlib.run(base + ['-fsanitize=thread', '-DVP_TL=__thread'] + srcs + ['-lpthread', '-o', os.path.join(bdir, 'race_tsan_steady')])
+    if r.returncode == 0:
+        env = dict(os.environ, TSAN_OPTIONS='halt_on_error=0:report_signal_unsafe=0')
+        runs = 2 if tier == 'quick' else 10
+        reports = []
+        for k in range(runs):
+            try:
+                tr = subprocess.run([os.path.join(bdir, 'race_tsan_steady'), 'STDY'], stdout=subprocess.PIPE, stderr=subprocess.STDOUT, text=True, timeout=120, env=env)
+            except subprocess.TimeoutExpired:
+                reports.append('timeout'); continue
+            if 'sched STDY done' not in tr.stdout:
+                reports.append('steady-state run died: ' + tr.stdout[-400:])
+            for blk in tr.stdout.split('WARNING: ThreadSanitizer: data race')[1:]:
+                m = re.search(r'#0 (\S+) (\S+?):(\d+)', blk)
+                reports.append('data race in %s (%s:%s)' % (m.group(1), os.path.basename(m.group(2)), m.group(3)) if m else 'data race')
+        steady = '%d runs, %d reports' % (runs, len(reports))
+        if reports:
+            first = sorted(set(reports))[0]
+            out['violations'].append(('race_steady', ['race STDY  # build harness/race_main.c + vport.c with -fsanitize=thread -DVP_TL=__thread and run it with argument STDY'],
+                                      (0, 'C17 thread clause: %s while two threads serve two existing interfaces (steady state; %d reports, distinct: %s)'
+                                          % (first, len(reports), '; '.join(sorted(set(reports))[:4])))))
+    else:
+        out['notes'].append('steady-state TSan harness does not build: ' + r.stdout[-400:])
+    out['coverage'] = {'thread_schedules': results, 'tsan_supporting_run': tsan, 'tsan_steady_state': steady}
     return out
